@@ -50,7 +50,7 @@ def cases(tier, seed):
         g = dict(seed=rng.randrange(10 ** 9), ndims=3, nlevels=1, names=[f"q{k}" for k in range(10)],
                  payload="random", base=[64 * nbx, 64 * nby, 2], sizes=[[64], [64], [2]], aniso=False)
         cs.append({"kind": "split", "gen": g, "sel_seed": seed * 59 + i})
-    return cs
+    return workload.add_reach_store(cs)
 
 
 def setup():
